@@ -141,6 +141,20 @@ def step (W : World) : Op → World
 
 def run (W : World) (ops : List Op) : World := ops.foldl step W
 
+/-- A list operation whose new occurrences are given as values (lists of sub-values), the way a program calls
+    `rec.fld.append(x)`, `.extend([...])`, `.insert(i, x)`, `rec.fld[i] = x`, `rec.fld += [...]`: every new occurrence
+    goes through `ComponentField._set_value` first (all of them before anything is stored); the surgery happens only
+    if every one is accepted. -/
+def checkedRelist (subs : List Scalar) (now : Str) (r : Nat) (fld : String) (wires : List (List (Option Str)))
+    (sel : List (Nat ⊕ Nat)) : Except Err Op :=
+  (mapME (buildComponent subs now) wires).map fun news => Op.relist r fld news sel
+
+def stepChecked (W : World) (subs : List Scalar) (now : Str) (r : Nat) (fld : String)
+    (wires : List (List (Option Str))) (sel : List (Nat ⊕ Nat)) : World :=
+  match checkedRelist subs now r fld wires sel with
+  | .ok op => step W op
+  | .error _ => W
+
 /-- the component object stored at a heap cell -/
 def compAt (heap : List Obj) (id : Nat) : Option (List (String × V)) :=
   match heap[id]? with
